@@ -236,6 +236,17 @@ class _DtAccessor:
             return Series(self.s.values_arr(), index=self.s.index, name=self.s.name)
         raise Unsupported("dt.tz_localize(tz)")
 
+    def total_seconds(self):
+        return Series(TimedeltaIndex(self.s.values_arr()).total_seconds().arr, index=self.s.index)
+
+    @property
+    def seconds(self):
+        return Series(TimedeltaIndex(self.s.values_arr()).seconds.arr, index=self.s.index)
+
+    @property
+    def days(self):
+        return Series(TimedeltaIndex(self.s.values_arr()).days.arr, index=self.s.index)
+
     def __getattr__(self, name):
         if name in _CAL:
             return Series(DatetimeIndex(self.s.values_arr())._attr(name).arr, index=self.s.index)
@@ -328,7 +339,7 @@ class Series:
 
     @property
     def dt(self):
-        if self._a._dt.kind != "M":
+        if self._a._dt.kind not in "Mm":
             raise AttributeError("Can only use .dt accessor with datetimelike values")
         return _DtAccessor(self)
 
@@ -773,6 +784,159 @@ def isna(x):
 isnull = isna
 
 from .symdf import DataFrame  # noqa: E402  (DataFrame model lives in its own module)
+
+
+class TimedeltaIndex(Index):
+    """result of pd.to_timedelta(array of timedelta64)"""
+
+    def __init__(self, data=None, **kw):
+        a = _arr(data if data is not None else [])
+        if a._dt.kind != "m":
+            raise Unsupported(f"TimedeltaIndex from {a._dt}")
+        self.arr = a
+        self.name = None
+
+    def _map(self, f, dt="int64"):
+        out = snp._obj(self.arr.a.shape)
+        for i, d in enumerate(self.arr.a):
+            out[i] = f(d)
+        return Index(snp.ndarray(out, dt))
+
+    @property
+    def days(self):
+        return self._map(lambda d: SInt(d.s / 86400))
+
+    @property
+    def seconds(self):
+        return self._map(lambda d: SInt(d.s - (d.s / 86400) * 86400))
+
+    def total_seconds(self):
+        def f(d):
+            v = z3.ToReal(d.s) if not z3.is_int_value(d.s) else rv(d.s.as_long())
+            if getattr(d, "f", None) is not None:
+                v = v + d.f
+            return SFloat(d.nat, v)
+        return self._map(f, "float64")
+
+
+def to_timedelta(arg, unit=None, **kw):
+    if isinstance(arg, (SDelta,)):
+        return arg
+    a = _arr(arg)
+    if a._dt.kind == "m":
+        return TimedeltaIndex(a)
+    if a._dt.kind in "iuf" and unit in ("s", "S", "sec", "second", "seconds"):
+        out = snp._obj(a.a.shape)
+        for i, x in enumerate(a.a):
+            t = _epoch_scalar(x)
+            out[i] = SDelta(t.s, t.nat, t.f)
+        return TimedeltaIndex(snp.ndarray(out, "timedelta64[ns]"))
+    raise Unsupported("to_timedelta of this input")
+
+
+class _TimedeltaMeta(type):
+    def __call__(cls, value=None, unit=None, **kw):
+        secs = kw.get("seconds", 0) + 60 * kw.get("minutes", 0) + 3600 * kw.get("hours", 0) + 86400 * kw.get("days", 0)
+        if value is not None:
+            if isinstance(value, SDelta):
+                return value
+            if unit in ("s", "S", "sec", "seconds"):
+                secs = value
+            else:
+                from .values import as_sdelta
+                r = as_sdelta(value)
+                if r is NotImplemented:
+                    raise Unsupported("Timedelta(value)")
+                return r
+        if isinstance(secs, SInt):
+            return SDelta(secs.v)
+        if isinstance(secs, SFloat):
+            t = _epoch_scalar(secs)
+            return SDelta(t.s, t.nat, t.f)
+        return SDelta(int(secs))
+
+
+class Timedelta(metaclass=_TimedeltaMeta):
+    pass
+
+
+def _series_diff(self, periods=1):
+    if periods != 1:
+        raise Unsupported("Series.diff(periods != 1)")
+    a = self._a
+    out = snp._obj(a.a.shape)
+    for i in range(len(a)):
+        if i == 0:
+            out[i] = SFloat.const(float("nan")) if a._dt.kind in "fiu" else (SDelta(0, TRUE) if a._dt.kind in "Mm" else None)
+        else:
+            out[i] = a.a[i] - a.a[i - 1]
+    dt = "float64" if a._dt.kind in "fiu" else "timedelta64[ns]"
+    if a._dt.kind in "iu":
+        for i in range(1, len(a)):
+            out[i] = out[i].__sym_float__()
+    return Series(snp.ndarray(out, dt), index=self.index, name=self.name)
+
+
+def _series_shift(self, periods=1):
+    a = self._a
+    n = len(a)
+    out = snp._obj(a.a.shape)
+    na = SFloat.const(float("nan")) if a._dt.kind in "fiu" else (STime(0, TRUE) if a._dt.kind == "M" else SDelta(0, TRUE))
+    for i in range(n):
+        j = i - periods
+        v = a.a[j] if 0 <= j < n else na
+        out[i] = v.__sym_float__() if (a._dt.kind in "iu" and hasattr(v, "__sym_float__")) else v
+    return Series(snp.ndarray(out, "float64" if a._dt.kind in "fiu" else a._dt), index=self.index, name=self.name)
+
+
+def _series_fillna(self, value):
+    a = self._a
+    out = snp._obj(a.a.shape)
+    for i, x in enumerate(a.a):
+        if isinstance(x, SFloat):
+            v = snp.cast_scalar(value, _np.dtype("float64"))
+            out[i] = SFloat(mk_and(x.nan, v.nan), mk_if(x.nan, v.v, x.v))
+        else:
+            out[i] = x
+    return Series(snp.ndarray(out, a._dt), index=self.index, name=self.name)
+
+
+def _series_where(self, cond, other=None):
+    c = _arr(cond)
+    a = self._a
+    o = SFloat.const(float("nan")) if other is None else other
+    return Series(snp.where(c, a if a._dt.kind == "f" else a.astype("float64"), o), index=self.index, name=self.name)
+
+
+def _series_between(self, left, right, inclusive="both"):
+    lo = (self >= left) if inclusive in ("both", "left") else (self > left)
+    hi = (self <= right) if inclusive in ("both", "right") else (self < right)
+    return lo & hi
+
+
+Series.diff = _series_diff
+Series.shift = _series_shift
+Series.fillna = _series_fillna
+Series.where = _series_where
+Series.mask = lambda self, cond, other=None: _series_where(self, ~(cond if isinstance(cond, Series) else Series(_arr(cond), index=self.index)), other)
+Series.between = _series_between
+Series.notna = lambda self: ~self.isna()
+Series.notnull = Series.notna
+Series.count = lambda self: snp.count_nonzero((~self.isna()).values_arr())
+Series.sum = lambda self: snp.nansum(self._a)
+Series.min = lambda self: snp.nanmin(self._a)
+Series.max = lambda self: snp.nanmax(self._a)
+Series.abs = lambda self: self._wrap(snp._unary("abs", self._a))
+Series.tolist = lambda self: list(self._a.a)
+Series.reset_index = lambda self, drop=False: Series(self._a, name=self.name) if drop else (_ for _ in ()).throw(Unsupported("reset_index(drop=False)"))
+
+
+def notna(x):
+    r = isna(x)
+    return ~r
+
+
+notnull = notna
 
 
 def __getattr__(name):
